@@ -307,7 +307,7 @@ def run(ctx):
                 where = rng.choice(["extension-only", "base", "both"])
                 ser, par, lit = S.strict_scalar_fns("VfInjected")
                 kwargs["additional_types"] = list(kwargs["additional_types"]) + [PS.ScalarType("VfInjected", ser, par, lit)]
-                v2 = copy.deepcopy(v2)
+                v2 = S.clone(v2)
                 inj = S.SType("scalar", "VfInjected", None)
                 inj.strict = True
                 v2.add(inj)
@@ -364,7 +364,7 @@ def run(ctx):
             # a second document extends the built schema: a new type, an extension of that new type and
             # an extension of the query root, in any order
             if rng.random() < 0.3 and not with_additional:
-                v3 = copy.deepcopy(view)
+                v3 = S.clone(view)
                 nt = S.SType("object", "VfAdded", None)
                 nt.fields = [S.SField("added_leaf", S.named("Int")), S.SField("added_extra", S.named("String"))]
                 v3.add(nt)
